@@ -229,6 +229,9 @@ var forwardExempt = map[string]string{
 
 var usedForwardExempt = map[string]bool{}
 
+// goForwardExempt: loops that need not hand a go up, one reason each.
+var goForwardExempt = map[string]string{}
+
 // nonNilSuccs: blocks entered when v != nil.
 func nonNilSuccs(v ssa.Value) []*ssa.BasicBlock {
 	var out []*ssa.BasicBlock
@@ -349,7 +352,9 @@ func reachableFromCall(c *core.Ctx) map[*ssa.Function]bool {
 func c07forward(c *core.Ctx, r *core.Reporter) {
 	const rule = "C07.forward"
 	r.Rule(rule, "every loop that evaluates its own element as a body form (the value is not stored per index) type-tests the value against *slip.ReturnResult on the path to the next iteration, and the success edge leaves the loop; "+
-		"the argument loop of (*Function).Eval is held to the same rule; loops inside deferred closures (cleanup forms run to completion) and in functions not reachable from any Call method (top-level drivers) are exempt", 40)
+		"the argument loop of (*Function).Eval is held to the same rule; loops inside deferred closures (cleanup forms run to completion) and in functions not reachable from any Call method (top-level drivers) are exempt", 35)
+	const goRule = "C07.goforward"
+	r.Rule(goRule, "every loop C07.forward judges also type-tests the value against *slip.GoTo (the object go evaluates to) with a success edge from which the loop can be left: a go in a body form leaves every form between it and the tagbody that has the tag", 30)
 	reach := reachableFromCall(c)
 	var nLoops, nArg, nExemptDefer, nExemptTop int
 	for _, fn := range c.ModuleFuncs() {
@@ -445,6 +450,25 @@ func c07forward(c *core.Ctx, r *core.Reporter) {
 					detail = kind + ": the marker is recognised but on some path the loop continues with the next form (a marker for an outer block is dropped unless a special case applies)"
 				}
 				r.Decide(tested, rule, key, c.Pos(call.Pos()), detail)
+				// the same loop and a go
+				goTested := false
+				for _, a := range valueAliases(call, el) {
+					for _, succ := range assertedTo(a, core.SlipPath, "GoTo") {
+						if canLeaveLoop(succ, el) {
+							goTested = true
+						}
+					}
+					for _, succ := range nonNilSuccs(a) {
+						if leavesLoop(succ, el) {
+							goTested = true
+						}
+					}
+				}
+				if why, ok := goForwardExempt[core.SSAName(fn)]; ok {
+					r.Hold(goRule, key, c.Pos(call.Pos()), "exception by reading: "+why)
+				} else {
+					r.Decide(goTested, goRule, key, c.Pos(call.Pos()), fmt.Sprintf("%s: result tested against *slip.GoTo with a success edge from which the loop can be left: %v", kind, goTested))
+				}
 			}
 		}
 	}
@@ -760,73 +784,6 @@ func c07class(c *core.Ctx, r *core.Reporter) {
 	}
 	_ = sort.Strings
 	r.Count("class.recover_handlers", n)
-}
-
-// c07tag: "go ... transfers control to the lexically matching tag and nowhere else". In the Call method of
-// tagbody (a) an element is evaluated only after a test that it is not a tag: a label reached by falling
-// through is not a variable reference; (b) a go whose tag is not among this tagbody's elements is handed on
-// to the enclosing form: the *GoTo value can reach the return. Before the repair every element was evaluated
-// ("Variable a is unbound") and an unmatched go ended the tagbody normally.
-func c07tag(c *core.Ctx, r *core.Reporter) {
-	const rule = "C07.tag"
-	r.Rule(rule, "tagbody evaluates an element only under a test that it is not a tag, and returns a go it cannot resolve to the enclosing form", 2)
-	b := c.ByName("pkg/cl", "tagbody")
-	if b == nil || b.Call == nil {
-		r.Undecided(rule, "pkg/cl:tagbody", "-", "form not found in the registry")
-		return
-	}
-	fn := c.SSAFunc(b.Call)
-	an := lenflow.New(c)
-	// (a)
-	for _, blk := range fn.Blocks {
-		for _, in := range blk.Instrs {
-			call, ok := in.(*ssa.Call)
-			if !ok {
-				continue
-			}
-			cal := call.Call.StaticCallee()
-			if cal == nil || cal.Name() != "EvalArg" {
-				continue
-			}
-			guarded := core.Separates(fn, blk, an.NoReturn, func(ifi *ssa.If, branch bool) bool {
-				// a boolean produced from the element: a call taking args[i], or a type test of it
-				var src ssa.Value = ifi.Cond
-				if u, ok := src.(*ssa.UnOp); ok {
-					src = u.X
-				}
-				switch x := src.(type) {
-				case *ssa.Call:
-					for _, a := range x.Call.Args {
-						if isElementLoad(a) {
-							return true
-						}
-					}
-				case *ssa.Extract:
-					if ta, ok := x.Tuple.(*ssa.TypeAssert); ok && isElementLoad(ta.X) {
-						return true
-					}
-				}
-				return false
-			})
-			r.Decide(guarded, rule, "pkg/cl:tagbody|element tested before it is evaluated", c.Pos(call.Pos()), fmt.Sprintf("the evaluation is reached only through a test of the element (tag or form): %v", guarded))
-		}
-	}
-	// (b)
-	returned := false
-	for _, blk := range fn.Blocks {
-		if ret, ok := blk.Instrs[len(blk.Instrs)-1].(*ssa.Return); ok {
-			for _, rv := range ret.Results {
-				if mi, ok := rv.(*ssa.MakeInterface); ok {
-					if pt, ok := mi.X.Type().(*types.Pointer); ok {
-						if n, ok := pt.Elem().(*types.Named); ok && n.Obj().Name() == "GoTo" {
-							returned = true
-						}
-					}
-				}
-			}
-		}
-	}
-	r.Decide(returned, rule, "pkg/cl:tagbody|unresolved go is returned", c.Pos(fn.Pos()), fmt.Sprintf("some return hands a *GoTo back to the enclosing form: %v", returned))
 }
 
 func isElementLoad(v ssa.Value) bool {
